@@ -684,6 +684,7 @@ pub fn check_main(def: &'static PropDef, opts: &CheckOpts) -> i32 {
 			"runs_truncated_by_wall_clock": truncated,
 			"xt_executions": total["execs"],
 			"runs_per_hour": if wall > 0.0 { (runs_done as f64 / wall * 3600.0) as u64 } else { 0 },
+			"seeds_per_hour_note": "every run index derives its own PRNG state from (VERIF_SEED, property, index): runs per hour = derived seeds per hour",
 			"sim_events": total["events"],
 			"sim_time_note": "xt has no clock; simulated time is the global sequence number of I/O events (reads, writes, flushes, call boundaries)",
 			"nontrivial_runs": total["nontrivial"],
